@@ -184,8 +184,21 @@ def gen(R, tier):
             return '{' + ','.join('#%s=%s' % (nm, _frag_text(*fr[nm])) for nm in sorted(fr)) + '}'
         base = gram.render(ast) + '.' + fragstr(frags)
         if fault == 'undefined':
+            if R.chance(0.4):
+                # a legitimate virtual node of the same undefined name elsewhere in the string
+                v = gram.Node('UNDEF')
+                if R.chance(0.5):
+                    v.nxt = 0
+                    ast.insert(0, v)
+                else:
+                    ast[-1].nxt = 0
+                    ast.append(v)
+                nodes = list(gram.all_nodes(ast))
+                base = gram.render(ast) + '.' + fragstr(frags)
             _, edges = gram.interpret(ast)
             for i, nd in enumerate(nodes):
+                if nd.name == 'UNDEF':
+                    continue
                 if not any(o >= 1 for (a, b), o in edges.items() if i in (a, b)):
                     continue
                 a2 = copy.deepcopy(ast)
